@@ -220,6 +220,48 @@ def cond_tol(cond, single=False):
     return np.maximum(TOL, C_COND * EPS * np.asarray(cond, float))
 
 
+# ----------------------------------------------------------------------------- positional and keyword call forms
+# Every public entry point this check drives is called in BOTH forms: fully positionally, in the parameter order of the PRISTINE
+# signatures as documented (read from /repo/src when this was written and hard-coded here on purpose - a changed tree must not redefine
+# the expected order), and by keyword.  The two calls must give the same answer, and the oracles of the property run on the positional
+# one.  A new optional parameter inserted in the middle of a signature, or two defaulted parameters swapped, binds the documented
+# positional call to the wrong parameters while every keyword call keeps working.
+#   fdd.SD_PreGER(Y, fs, nxseg=1024, pov=0.5, method="per")
+#   fdd.SD_est(Yall, Yref, dt, nxseg=1024, method="cor", pov=0.5)
+#   MultiSetup_PreGER(fs, ref_ind, datasets)      SingleSetup(data, fs)      <Algorithm>(run_params, name)
+# The generators never use the defaults together: nxseg != 1024 in the quick tier, both estimators (each is the default of one of the two
+# functions), overlaps 0..0.75 ('per' is the estimator on which the overlap acts), so a fall-back to a default or a swap shows.
+def forms_agree(a, b, single):
+    """(freq, S) of the positional and of the keyword call: same shapes, same values (tolerance of the glue comparison in class_level;
+    the two calls execute the same arithmetic)."""
+    fa, Sa, fb, Sb = np.asarray(a[0]), np.asarray(a[1]), np.asarray(b[0]), np.asarray(b[1])
+    if fa.shape != fb.shape or Sa.shape != Sb.shape:
+        return False
+    fin = np.abs(Sb[np.isfinite(Sb)])
+    m = float(fin.max()) if fin.size else 1.0
+    fm = float(np.abs(fb[np.isfinite(fb)]).max()) if np.any(np.isfinite(fb)) else 1.0
+    return bool(np.allclose(fa, fb, rtol=0, atol=1e-12 * max(fm, 1e-300), equal_nan=True)
+                and np.allclose(Sa, Sb, rtol=1e-5 if single else 1e-12, atol=(1e-6 if single else 1e-15) * m, equal_nan=True))
+
+
+def forms_dev(a, b):
+    try:
+        Sa, Sb = np.asarray(a[1]), np.asarray(b[1])
+        if Sa.shape != Sb.shape:
+            return "shapes %s / %s" % (Sa.shape, Sb.shape)
+        return "max dev %.3g of scale %.3g; last frequency %.12g / %.12g" % (float(np.nanmax(np.abs(Sa - Sb))), float(np.nanmax(np.abs(Sb))),
+                                                                             float(np.real(np.asarray(a[0]).ravel()[-1])), float(np.real(np.asarray(b[0]).ravel()[-1])))
+    except Exception:
+        return "results not comparable"
+
+
+def same_setup_data(A, B):
+    """Pre-processed multi-setup data (list of {'ref','mov'}) or a plain array: moved values, compared exactly."""
+    if isinstance(A, np.ndarray) or isinstance(B, np.ndarray):
+        return isinstance(A, np.ndarray) and isinstance(B, np.ndarray) and A.shape == B.shape and A.dtype == B.dtype and np.array_equal(A, B)
+    return len(A) == len(B) and all(set(a) == set(b) and all(np.shape(a[k]) == np.shape(b[k]) and np.array_equal(a[k], b[k]) for k in a) for a, b in zip(A, B))
+
+
 # ----------------------------------------------------------------------------- one case
 class Pending:
     def __init__(self):
@@ -250,8 +292,10 @@ def run_case(ctx, case, pend, lines_cap):
     ctx.sample(case)
     tag = "%s/%s/nxseg=%d/pov=%s" % (case["kind"], method, nxseg, pov)
 
-    # ---- implementation
+    # ---- implementation: the documented positional call SD_PreGER(Y, fs, nxseg, pov, method) (pristine parameter order, hard-coded);
+    #      every oracle below runs on its result.  The same call by keyword must give the same answer (see "call forms" above).
     err = None
+    pos_ex = None
     Yin = hand_over(Y, readonly)
     try:
         freq, Sy = fdd.SD_PreGER(Yin, fs, nxseg, pov, method)
@@ -259,15 +303,53 @@ def run_case(ctx, case, pend, lines_cap):
     except np.linalg.LinAlgError:
         err = "LinAlgError"
     except Exception as ex:  # any other exception on a valid measurement is a failing input
-        ctx.fail("oracle", "SD_PreGER raised %s: %s (%s%s)" % (type(ex).__name__, str(ex)[:200], tag, ", read-only input arrays" if readonly else ""),
-                 case, key="C04:SD_PreGER:raises")
+        pos_ex = ex
+    kw_res = None
+    if err is None:
+        try:
+            kw_res = fdd.SD_PreGER(Y=hand_over(Y, readonly), fs=fs, nxseg=nxseg, pov=pov, method=method)
+            kw_res = (np.asarray(kw_res[0]), np.asarray(kw_res[1]))
+        except Exception as ex:
+            kw_res = ex
+    if pos_ex is not None:
+        if isinstance(kw_res, tuple):
+            ctx.fail("oracle", "SD_PreGER(Y, fs, nxseg, pov, method) called positionally in the documented parameter order raised %s: %s, the same "
+                     "call by keyword returns (%s)" % (type(pos_ex).__name__, str(pos_ex)[:200], tag), case, key="C04:SD_PreGER:positional-call")
+        else:
+            ctx.fail("oracle", "SD_PreGER raised %s: %s (%s%s)" % (type(pos_ex).__name__, str(pos_ex)[:200], tag, ", read-only input arrays" if readonly else ""),
+                     case, key="C04:SD_PreGER:raises")
         return
     if not same_inputs(Yin, Y):
         ctx.fail("oracle", "SD_PreGER modified its input records (%s)" % tag, case, key="C04:SD_PreGER:mutates-input")
-    # ---- harness's own per-setup spectra (witnesses): SD_est on [ref; mov] against ref, as SD_PreGER consumes them
+    # ---- harness's own per-setup spectra (witnesses): SD_est on [ref; mov] against ref, as SD_PreGER consumes them; called positionally in
+    #      the pristine order SD_est(Yall, Yref, dt, nxseg, method, pov) and, on one setup per case, also by keyword
     G_all, F_all = [], []
-    for y in Y:
-        f_w, S = fdd.SD_est(np.vstack([y["ref"], y["mov"]]), y["ref"], 1.0 / fs, nxseg, method, pov)
+    kw_setup = int(case.get("seed", 0)) % len(Y)
+    for kk, y in enumerate(Y):
+        Ya_, Yr_ = np.vstack([y["ref"], y["mov"]]), y["ref"]
+        est_ex = None
+        try:
+            f_w, S = fdd.SD_est(Ya_, Yr_, 1.0 / fs, nxseg, method, pov)
+        except Exception as ex:
+            est_ex = ex
+        if est_ex is not None or kk == kw_setup:
+            try:
+                kw_est = fdd.SD_est(Yall=Ya_.copy(), Yref=Yr_.copy(), dt=1.0 / fs, nxseg=nxseg, method=method, pov=pov)
+            except Exception as ex:
+                kw_est = ex
+            if est_ex is not None:
+                if not isinstance(kw_est, tuple):
+                    raise est_ex
+                ctx.fail("oracle", "SD_est(Yall, Yref, dt, nxseg, method, pov) called positionally in the documented parameter order raised %s: %s, "
+                         "the same call by keyword returns (%s)" % (type(est_ex).__name__, str(est_ex)[:200], tag), case, key="C04:SD_est:positional-call")
+                return
+            sgl_k = np.asarray(S).dtype == np.complex64 or Ya_.dtype == np.float32
+            if isinstance(kw_est, TypeError):
+                ctx.note("SD_est does not accept its documented parameter names as keywords (%s); positional / keyword comparison skipped" % str(kw_est)[:120])
+            elif not isinstance(kw_est, tuple) or not forms_agree((f_w, S), kw_est, sgl_k):
+                ctx.fail("oracle", "SD_est(Yall, Yref, dt, nxseg, method, pov) called positionally in the documented parameter order differs from the same "
+                         "call by keyword (setup %d, %s): %s" % (kk, tag, forms_dev((f_w, S), kw_est) if isinstance(kw_est, tuple) else
+                                                                   "keyword call raised %s" % type(kw_est).__name__), case, key="C04:SD_est:positional-call")
         G_all.append(np.asarray(S))
         F_all.append(np.asarray(f_w))
     nf = G_all[0].shape[2]
@@ -278,6 +360,14 @@ def run_case(ctx, case, pend, lines_cap):
         Sy = Sy.astype(np.complex128)
     btol = TOLS if single else TOL
     ctx.hist("precision class", "single" if single else "double")
+    if not err and not (bool(case.get("zero")) or case.get("dupref", False)):
+        ctx.hist("called positionally and by keyword", ("SD_PreGER", method, "pov=0.5" if pov == 0.5 else "pov!=0.5"))
+        if isinstance(kw_res, TypeError):
+            ctx.note("SD_PreGER does not accept its documented parameter names as keywords (%s); positional / keyword comparison skipped" % str(kw_res)[:120])
+        elif not isinstance(kw_res, tuple) or not forms_agree((freq, Sy), kw_res, single):
+            ctx.fail("oracle", "SD_PreGER(Y, fs, nxseg, pov, method) called positionally in the documented parameter order differs from the same call by "
+                     "keyword (%s): %s" % (tag, forms_dev((freq, Sy), kw_res) if isinstance(kw_res, tuple) else
+                                           "keyword call raised %s: %s" % (type(kw_res).__name__, str(kw_res)[:160])), case, key="C04:SD_PreGER:positional-call")
 
     if malformed:
         # singular reference block: the model says LinAlgError; the property does not name the exception -> note only
@@ -560,15 +650,46 @@ def class_level(ctx, case):
         return
     if not all(a.dtype == b.dtype and np.array_equal(a, b) for a, b in zip(dsin, datasets)):
         ctx.fail("oracle", "MultiSetup_PreGER / run_all modified the data sets handed over", case, key="C04:run_all:mutates-input")
+    # ---- the same construction fully positionally, in the parameter order of the pristine signatures (hard-coded, see "call forms"):
+    #      MultiSetup_PreGER(fs, ref_ind, datasets) and <Algorithm>(run_params, name); same state, and after run_all the same results
+    pos_algs, site = {}, "MultiSetup_PreGER"
+    try:
+        msp = MultiSetup_PreGER(fs, [list(r) for r in ref_ind], [d.copy() for d in datasets])
+        if not (msp.fs == ms.fs and msp.dt == ms.dt and same_setup_data(msp.data, ms.data)
+                and [list(r) for r in msp.ref_ind] == [list(r) for r in ms.ref_ind]):
+            ctx.fail("oracle", "MultiSetup_PreGER(fs, ref_ind, datasets) called positionally in the documented parameter order holds other fs / dt / "
+                     "ref_ind / pre-processed data than the same call by keyword", case, key="C04:MultiSetup_PreGER:positional-call")
+        pa = []
+        for (cls, name), (nxseg, method, pov) in zip(((FDD_MS, "fdd"), (EFDD_MS, "efdd"), (pLSCF_MS, "plscf")), case["params"]):
+            site = cls.__name__
+            kw = dict(nxseg=nxseg, method_SD=method, pov=pov)
+            if cls is pLSCF_MS:
+                kw["ordmax"] = 4
+            a = cls(cls.RunParamCls(**kw), name)
+            ref = [x for c, x, _, _, _ in algs if c is cls][0]
+            if a.name != ref.name or any(getattr(a.run_params, k) != getattr(ref.run_params, k) for k in kw):
+                ctx.fail("oracle", "%s(run_params, name) called positionally in the documented parameter order has name %r / run parameters %s, the "
+                         "keyword construction %r / %s" % (site, a.name, {k: getattr(a.run_params, k, None) for k in kw}, ref.name,
+                                                          {k: getattr(ref.run_params, k, None) for k in kw}), case, key="C04:%s:positional-call" % site)
+            pa.append((cls, a))
+        site = "MultiSetup_PreGER"
+        msp.add_algorithms(*[a for _, a in pa])
+        msp.run_all()
+        pos_algs = {cls.__name__: a for cls, a in pa}
+        ctx.hist("called positionally and by keyword", "MultiSetup_PreGER + FDD_MS / EFDD_MS / pLSCF_MS constructors")
+    except Exception as ex:
+        ctx.fail("oracle", "%s called positionally in the documented parameter order (%s) raised %s: %s; the keyword construction ran" % (
+            site, "fs, ref_ind, datasets" if site == "MultiSetup_PreGER" else "run_params, name", type(ex).__name__, str(ex)[:200]), case,
+            key="C04:%s:positional-call" % site)
     allrec = np.vstack([Y64[0]["ref"]] + [y["mov"] for y in Y64])
     nr = len(ref_ind[0])
     # the single-setup classes on the same simultaneous recording (all sensors: references, then roving in setup order)
     from pyoma2.algorithms import EFDD, FDD, pLSCF
     from pyoma2.setup import SingleSetup
     single = {}
+    ss, sal = None, []
     try:
         ss = SingleSetup(np.ascontiguousarray(allrec.T), fs=fs)
-        sal = []
         for (scls, name), (nxseg, method, pov) in zip(((FDD, "fdd"), (EFDD, "efdd"), (pLSCF, "plscf")), case["params"]):
             kw = dict(name=name, nxseg=nxseg, method_SD=method, pov=pov)
             if scls is pLSCF:
@@ -584,6 +705,27 @@ def class_level(ctx, case):
                          "SciPy estimator and SD_PreGER only" % (type(a).__name__, type(ex).__name__))
     except Exception as ex:
         ctx.note("SingleSetup could not be built for the class-level comparison: %s" % type(ex).__name__)
+    # the same single-setup construction fully positionally, pristine order SingleSetup(data, fs) and <Algorithm>(run_params, name): same state
+    if ss is not None and len(sal) == 3:
+        site = "SingleSetup"
+        try:
+            ssp = SingleSetup(np.ascontiguousarray(allrec.T), fs)
+            if not (ssp.fs == ss.fs and ssp.dt == ss.dt and same_setup_data(np.asarray(ssp.data), np.asarray(ss.data))):
+                ctx.fail("oracle", "SingleSetup(data, fs) called positionally in the documented parameter order holds other fs / dt / data than the same "
+                         "call by keyword", case, key="C04:SingleSetup:positional-call")
+            for (scls, name), (nxseg, method, pov), ref in zip(((FDD, "fdd"), (EFDD, "efdd"), (pLSCF, "plscf")), case["params"], sal):
+                site = scls.__name__
+                kw = dict(nxseg=nxseg, method_SD=method, pov=pov)
+                if scls is pLSCF:
+                    kw["ordmax"] = 4
+                ap = scls(scls.RunParamCls(**kw), name)
+                if ap.name != ref.name or any(getattr(ap.run_params, k) != getattr(ref.run_params, k) for k in kw):
+                    ctx.fail("oracle", "%s(run_params, name) called positionally in the documented parameter order has another name / other run "
+                             "parameters than the keyword construction" % site, case, key="C04:%s:positional-call" % site)
+        except Exception as ex:
+            ctx.fail("oracle", "%s called positionally in the documented parameter order (%s) raised %s: %s; the keyword construction ran" % (
+                site, "data, fs" if site == "SingleSetup" else "run_params, name", type(ex).__name__, str(ex)[:200]), case,
+                key="C04:%s:positional-call" % site)
     for cls, alg, nxseg, method, pov in algs:
         c = dict(case, cls=cls.__name__, nxseg=nxseg, method=method, pov=pov)
         ctx.count(c)
@@ -594,6 +736,12 @@ def class_level(ctx, case):
         tag = "%s nxseg=%d method_SD=%s pov=%s" % (cls.__name__, nxseg, method, pov)
         ftol = 1e-12 * fs
         grid = np.arange(nxseg // 2 + 1) * (fs / nxseg)
+        if cls.__name__ in pos_algs:  # positional construction (MultiSetup_PreGER(fs, ref_ind, datasets), cls(run_params, name)) against the keyword one
+            rp = pos_algs[cls.__name__].result
+            if rp is None or not forms_agree((rp.freq, rp.Sy), (fr, Sr), sgl):
+                ctx.fail("oracle", "%s: result.{freq,Sy} of the set-up and algorithm constructed positionally in the documented parameter order differ "
+                         "from those of the keyword construction: %s" % (tag, "no result" if rp is None else forms_dev((rp.freq, rp.Sy), (fr, Sr))), c,
+                         key="C04:%s:positional-call" % cls.__name__)
         if cls.__name__ in single:
             rs = single[cls.__name__].result
             fs1, Ss1 = np.asarray(rs.freq), np.asarray(rs.Sy)
